@@ -1510,6 +1510,13 @@ func (p *Posix) CompleteMultipartUpload(ctx context.Context, input *s3.CompleteM
 		return nil, s3err.GetIncorrectMpObjectSizeErr(totalsize, *input.MpuObjectSize)
 	}
 
+	// the key may hold an object under legal hold or retention, which
+	// the completed upload would replace
+	err = auth.CheckObjectAccess(ctx, bucket, acct.Access, []types.ObjectIdentifier{{Key: &object}}, true, p)
+	if err != nil {
+		return nil, err
+	}
+
 	var hashRdr *utils.HashReader
 	var compositeChecksumRdr *utils.CompositeChecksumReader
 	switch checksums.Type {
